@@ -389,12 +389,13 @@ func c06CLI(c *ev.Ctx, root string, names []string, aloneHash map[string]string)
 		}
 	}
 	runs := 0
+	key := "c06.output-depends-on-prior-state"
 	compare := func(out, what string) {
 		runs++
 		for rel, want := range ref {
 			got, err := os.ReadFile(filepath.Join(out, rel))
 			if err != nil || !bytes.Equal(got, want) {
-				c.Violation("c06.output-depends-on-prior-state", fmt.Sprintf("same sources, different file: %s after %s differs from the file a fresh output directory gets (%d vs %d bytes)", rel, what, len(got), len(want)),
+				c.Violation(key, fmt.Sprintf("same sources, different file: %s after %s differs from the file a fresh output directory gets (%d vs %d bytes)", rel, what, len(got), len(want)),
 					map[string]string{"got.v": string(got), "want.v": string(want)})
 				return
 			}
@@ -421,6 +422,23 @@ func c06CLI(c *ev.Ctx, root string, names []string, aloneHash map[string]string)
 			continue
 		}
 		compare(out, "the output directory held "+what)
+	}
+	// co-translated packages that fail: the error-free packages get exactly the files they get without them, wherever
+	// the failing patterns stand in the invocation (exit status 1 is the failing packages' business)
+	for k, withBad := range [][]string{
+		append([]string{"./failing"}, pats...),
+		append(append([]string{}, pats...), "./failmulti"),
+		append(append(append([]string{}, pats[:len(pats)/2]...), "./failing", "./failmulti"), pats[len(pats)/2:]...),
+	} {
+		out := filepath.Join(c.Scratch, "c06cli-bad")
+		_ = os.RemoveAll(out)
+		if o, code := runGooseCLI(c, root, out, withBad...); code != 1 {
+			c.Inconclusive("goose CLI with a failing package among the patterns: exit %d, expected 1\n%s", code, firstLines(o, 6))
+			continue
+		}
+		key = "c06.output-depends-on-co-translated-failure"
+		compare(out, fmt.Sprintf("an invocation that also names failing packages (variant %d: %v)", k, withBad))
+		key = "c06.output-depends-on-prior-state"
 	}
 	// earlier versions of the sources: a trailing declaration more, then removed again (the new output is a prefix of
 	// the old one for packages with an FFI prelude, whose footer is empty)
